@@ -71,19 +71,20 @@ Fixpoint list_chk {X Y} (f : X -> Y -> bool) (l : list X) (m : list Y) : bool :=
   | _, _ => false
   end.
 
-(* (name, (is_gate, nq, param_ok, matrix_ok), (c, s), w, oracle_contract_ok, expected) *)
+(* (name, (is_gate, nq, param_ok, matrix_ok, has_param), (c, s), w, oracle_contract_ok, expected) *)
 Definition basis_case : Type :=
-  string * (bool * nat * bool * bool) * (Q * Q) * list Q * bool * res observed.
+  string * (bool * nat * bool * bool * bool) * (Q * Q) * list Q * bool * res observed.
 
 Definition chk_basis (k : basis_case) : bool :=
-  let '(name, (isg, nq, pok, mok), (c, s), w, okak, e) := k in
-  match basis_of (mkG name isg nq pok mok), e with
+  let '(name, (isg, nq, pok, mok, hasp), (c, s), w, okak, e) := k in
+  match basis_of (mkG name isg nq pok mok hasp), e with
   | Ok b, Ok (emaps, ecells, ecoef) =>
       okak &&
       list_beq (pair_beq Nat.eqb Nat.eqb) (canon_maps b) emaps &&
       list_chk (list_chk chk_op) (canon_cells b) ecells &&
       list_chk qclose (map (ceval (QenvCoef c s w)) (pcoeffs b)) ecoef
   | Refused, Refused => true
+  | Crashed, Crashed => true
   | _, _ => false
   end.
 
